@@ -28,6 +28,7 @@ type Worker struct {
 	sbvCache                                   map[*Term]*Term
 	DomainDecisions, DomainRechecks            int
 	DomainDisagreements                        int
+	DomainRefinements                          int
 	RecheckRate                                float64
 	rngState                                   uint64
 	Steps                                      int64
